@@ -122,15 +122,48 @@ def call5(f, *a):
 '''
 
 
+OPS_SRC = '''
+def op_marshal(tl, T, v):
+    return tl.marshal(v, t=T)
+def op_unmarshal(tl, T, x):
+    return tl.unmarshal(T, x)
+def op_encode(tl, T, v):
+    return tl.codec(T).encode(v)
+def op_decode(tl, T, b):
+    return tl.codec(T).decode(b)
+def deeper(k, f, *a):
+    if k:
+        return deeper(k - 1, f, *a)
+    return f(*a)
+'''
+
+
 def outcomes(spec, tag, value_srcs, input_srcs, ref_form="object", bytes_in=None):
-    """materialise `spec` under module tag `tag`, run every operation, return comparable outcomes"""
+    """materialise `spec` under module tag `tag`, run every operation, return comparable outcomes.
+
+    The typelib entry points are called *from a function of the issuing module* (a neutral module, the
+    defining module for bare names, or a module that binds every name of the program to a decoy), so
+    that the library's notion of 'the caller' is that module."""
+    import types as _types
+
     mat = U.materialise(spec, tag=tag)
     out = {}
     enc = {}
     with mat:
         tl.clear_all()
         T = mat.root
-        call = lambda f, *a: f(*a)  # noqa: E731
+        clash = ref_form.endswith("@clash")
+        ref_form = ref_form.replace("@clash", "")
+        depth = 0
+        issuer = _types.ModuleType(f"c11_issuer_{tag}")
+        import sys as _sys
+        _sys.modules[issuer.__name__] = issuer
+        if clash:
+            exec("import dataclasses\n@dataclasses.dataclass\nclass Decoy:\n    zz: str = 'decoy'\n", issuer.__dict__)  # noqa: S102
+            for (_m, nm) in list(mat.classes):
+                issuer.__dict__[nm] = issuer.__dict__["Decoy"]
+            for _i in mat.modules:
+                issuer.__dict__[f"M{_i}"] = issuer.__dict__["Decoy"]
         if ref_form != "object":
             named = spec
             mod = mat.modules[named["mod"]]
@@ -138,18 +171,21 @@ def outcomes(spec, tag, value_srcs, input_srcs, ref_form="object", bytes_in=None
                 T = f"{mod.__name__}.{named['name']}"
             elif ref_form == "forwardref":
                 T = typing.ForwardRef(named["name"], module=mod.__name__)
-            else:
-                exec(FRAME_SRC, mod.__dict__)  # noqa: S102
+            elif ref_form.startswith("bare"):
+                issuer = mod
                 T = named["name"]
-                call = mod.__dict__["call" + ref_form.split(":")[1]]
+                depth = int(ref_form.split(":")[1])
+        exec(OPS_SRC, issuer.__dict__)  # noqa: S102
+        ops = issuer.__dict__
+        run = lambda name, *a: tl.call(ops["deeper"], depth, ops[name], tl, *a)  # noqa: E731
         for i, src in enumerate(value_srcs):
             try:
                 v = mat.eval(src)
             except Exception as e:
                 out[f"marshal#{i}"] = ("harness", type(e).__name__)
                 continue
-            out[f"marshal#{i}"] = _o(tl.call(call, lambda vv: tl.marshal(vv, t=T), v))
-            r = tl.call(call, lambda vv: tl.codec(T).encode(vv), v)
+            out[f"marshal#{i}"] = _o(run("op_marshal", T, v))
+            r = run("op_encode", T, v)
             out[f"encode#{i}"] = _o(r)
             if r[0] == "ok":
                 enc[i] = r[1]
@@ -159,9 +195,10 @@ def outcomes(spec, tag, value_srcs, input_srcs, ref_form="object", bytes_in=None
             except Exception as e:
                 out[f"unmarshal#{i}"] = ("harness", type(e).__name__)
                 continue
-            out[f"unmarshal#{i}"] = _o(tl.call(call, lambda xx: tl.unmarshal(T, xx), x))
+            out[f"unmarshal#{i}"] = _o(run("op_unmarshal", T, x))
         for i, b in (bytes_in if bytes_in is not None else enc).items():
-            out[f"decode#{i}"] = _o(tl.call(call, lambda bb: tl.codec(T).decode(bb), b))
+            out[f"decode#{i}"] = _o(run("op_decode", T, b))
+        _sys.modules.pop(f"c11_issuer_{tag}", None)
     return out, enc
 
 
@@ -195,15 +232,16 @@ def check_case(base_name, base, chain, position, data, col, counter):
     spec_w = embed(apply_chain(base, chain), position)
     vals, ins = gen_inputs(spec_t, tag, data)
     ref_t, enc = outcomes(spec_t, tag, vals, ins)
-    forms = ["object"]
+    forms = ["object", "object@clash"]
     named_root = position == "root" and chain and chain[-1] in ("newtype", "alias", "stralias")
     if named_root:
-        forms += ["qualified-string", "forwardref", "bare:0", "bare:1", "bare:2", "bare:5"]
+        forms += ["qualified-string", "forwardref", "bare:0", "bare:1", "bare:2", "bare:5", "qualified-string@clash", "forwardref@clash"]
     for form in forms:
         col.ev()
         col.label(f"position:{position}")
         col.label(f"chain-len:{len(chain)}")
         col.label(f"form:{form.split(':')[0]}")
+        col.label("caller:clashing-module" if form.endswith("@clash") else "caller:neutral")
         if len(chain) >= 2 or position != "root" or form != "object":
             col.nt(f"{base_name}|{chain}|{position}|{form}")
         case = {"base": base_name, "base_spec": base, "chain": list(chain), "position": position, "form": form, "values": vals, "inputs": ins}
